@@ -28,8 +28,9 @@ type c15Case struct {
 
 func init() {
 	mc.Register(&mc.Property{
-		ID:    "C15",
-		Level: "model_checking",
+		ID:     "C15",
+		Word32: true,
+		Level:  "model_checking",
 		Rule: "E2 explicit-state breadth-first search over real TailBitmap objects. Starts (all built with real calls): empty at offset 0/64/640/2^33; three words filled except H holes in forward, backward and interleaved fill order (offset 0 and 64); two starts that cross the real 1024-word reclaim threshold (1023 full words then holes; words 1..1025 full with the holes in word 0, so one Set compacts >1024 words). " +
 			"Alphabet per state: Set(every hole), Set below Offset (0, Offset-1, Offset-64), Set beyond the end (end+1, end+129, while the bitmap has grown < 130 bits), Set of an already-set bit, Compact. Successors are produced by cloning the object and calling the real method; the state key is every field the implementation can read (Offset, Words, and all unexported fields through reflect). " +
 			"After EVERY transition (before deduplication): Get/Get1 on the whole window [Offset-130, end) ∪ {0, o-1} against the model (when more than 1024 bits are stored: every bit within 66 of Offset, the end, every hole, every position ever set and the operation's index, plus the first and last bit of every stored word), Offset ≡ 0 mod 64 and monotone, no 0 bit skipped, first stored word ≠ all-ones after Set, highest index ever set < end, Compact changes no Get. Every discovered state is additionally re-reached by replaying its shortest path on a freshly built object (differential: cloned chain vs fresh replay), and every eighth state (and every state of depth ≤3) once more with a second, unrelated TailBitmap operated between the steps (objects must not share state). Non-trivial transitions: those that change the state.",
